@@ -75,7 +75,7 @@ class SimCallback(object):
 
 
 class Slot(object):
-    __slots__ = ('obj', 'token', 'pos', 'alive', 'origin', 'tainted')
+    __slots__ = ('obj', 'token', 'pos', 'alive', 'origin', 'tainted', 'source_only')
 
     def __init__(self, obj, token, pos, origin):
         self.obj = obj
@@ -84,6 +84,7 @@ class Slot(object):
         self.alive = True
         self.origin = origin
         self.tainted = False
+        self.source_only = False     # kept after a resize aborted before its store: read, never written
 
 
 class Store(object):
@@ -179,6 +180,10 @@ class World(object):
         self.shadowing = any(getattr(o, 'wants_shadow', False) for o in self.oracles)
         # the aliasing oracle cannot know whether a failed write already swapped the buffer
         self.strict_abandon = any(getattr(o, 'prop', None) == 'C20' for o in self.oracles) or not self.oracles
+        # route agreement (C10) is about the stored value - codes and n_frac - whatever else is stale:
+        # there the destination of a resize aborted BEFORE its store (new sizes over old codes, the
+        # state the pinned code leaves) stays in play as a source and destination of later conversions
+        self.keep_aborted_resize = bool(self.oracles) and all(getattr(o, 'prop', None) == 'C10' for o in self.oracles)
 
     # ------------------------------------------------------------------ bookkeeping
     def new_cid(self):
@@ -384,8 +389,8 @@ class World(object):
             # fault F8, second form: the handler calls reset() on the object it is notified about
             # (a "count and re-arm" handler), in the middle of that object's write
             if st is None or k is None or k != st.dest or st.store is None or st.store.target != 'dest' \
-                    or st.kind not in ('inplace', 'indexed') or st.extra.get('selfwrites') \
-                    or 'selfreset_at' in st.extra:
+                    or not (st.kind in ('inplace', 'indexed') or (st.kind == 'derive' and st.store.arith is not None)) \
+                    or st.extra.get('selfwrites') or 'selfreset_at' in st.extra:
                 self.bump('fault_F8_dropped')
                 return
             self.bump('fault_F8_reset_fired')
@@ -458,6 +463,13 @@ class World(object):
         except StopIteration:
             raise HarnessError('op %s did not yield' % op['op'])
         # plan complete
+        if any(self.slots[i].source_only for i in (set(st.wset) | ({st.dest} if st.dest is not None else set()))):
+            # (the storage type of such an object may not even match its signedness any more: what a
+            #  write into it does is exception safety, which no property states)
+            st.outcome = 'skipped'
+            self.log.append((st.seq, depth, op['op'], 'skipped'))
+            gen.close()
+            return st
         if st.dest is not None:
             st.inflight = set(self.group(st.dest)) | {st.dest}
         st.pre = self.snapshot()
@@ -510,6 +522,9 @@ class World(object):
                 st.exc_obj = e
         finally:
             self.stack.pop()
+        if st.dest is not None:
+            # observed, not assumed: did the destination still hold the very buffer it had before?
+            st.extra['buffer_kept'] = self.slots[st.dest].obj.val is dest_val_ref
         if shadow is not None and st.outcome == 'ok' and 'f4_site' in st.extra and self.slots[st.dest].alive:
             try:
                 st.redo(shadow, ssrc)
@@ -534,6 +549,10 @@ class World(object):
                 # object holds the converted value in the new format and stays in play
                 fmt_in_flight = False
                 self.bump('aborted_after_store_kept')
+            elif st.op['op'] == 'resize' and self.keep_aborted_resize and st.outcome == 'aborted':
+                fmt_in_flight = False
+                self.slots[st.dest].source_only = True
+                self.bump('aborted_before_store_kept_as_is')
             if self.strict_abandon or fmt_in_flight:
                 if self.slots[st.dest].alive:
                     self.kill(st.dest)
@@ -1822,6 +1841,34 @@ class World(object):
         self.config_pristine[c] = self.snap_cfg(self.configs[c])
         self.bump('fault_F6_caller_config_mutated')
 
+    def op_export(self, st):
+        """The caller takes a snapshot of an object with np.array(x) - documented by NumPy to be a copy -
+        and keeps it as one of its own arrays: from then on it is an input container like any other
+        (later writes on the object must not show in it, and the caller's writes into it - fault F6 -
+        must not show in the object)."""
+        op = st.op
+        if len(self.containers) >= 4:
+            raise Skip('containers full')
+        a = self.ref(op['slot'], lambda o: np.asarray(o.val).dtype.kind in 'iu')
+        st.kind = 'observe'
+        st.pure = True
+        st.srcs = [a]
+        yield
+        o = self.obj(a)
+        how = op.get('how', 'array')
+        if how == 'array':
+            arr = np.array(o)
+        elif how == 'array_copy':
+            arr = np.array(o, copy=True)
+        else:
+            arr = np.asarray(o, copy=True)
+        if not isinstance(arr, np.ndarray) or arr.dtype.kind not in 'iuf':
+            return
+        self.bump('exported_snapshot')
+        if isinstance(o.val, np.ndarray) and np.shares_memory(arr, o.val):
+            st.extra['export_aliases'] = a
+        self.containers.append([arr, copy.deepcopy(arr)])
+
     def op_cont_mutate(self, st):
         op = st.op
         if not self.containers:
@@ -1836,7 +1883,13 @@ class World(object):
         obj = self.containers[c][0]
         v = V.carrier(op['val'])
         if isinstance(obj, np.ndarray):
-            obj.flat[op['k'] % obj.size] = v
+            i = op['k'] % obj.size
+            try:
+                obj.flat[i] = v
+            except (ValueError, TypeError, OverflowError):
+                # the carrier does not fit the array's element type (a string or a huge integer
+                # into an exported integer snapshot): the caller writes some other number instead
+                obj.flat[i] = 1 if obj.flat[i] == 0 else 0
         elif isinstance(obj, list):
             tgt = obj
             while isinstance(tgt[0], list):
